@@ -286,8 +286,8 @@ func compareFac(ck *checker, what string, a M, ref, got facRun) {
 
 func genFactor(kd fkind) func(g *vlib.G) {
 	return func(g *vlib.G) {
-		N := vlib.Pick(g, 10, 12)
-		nbs := vlib.Pick(g, []int{2, 3, 4}, []int{1, 2, 3, 4})
+		N := vlib.Pick(g, 12, 14)
+		nbs := vlib.Pick(g, []int{1, 2, 3, 4}, []int{1, 2, 3, 4, 5})
 		nxs := []int{0, 4}
 		if !kd.hasBlocked {
 			nbs, nxs = []int{1}, []int{0}
@@ -501,8 +501,8 @@ func orgShapes(ok okind, N int, f func(m, n, k int)) {
 
 func genOrg(ok okind) func(g *vlib.G) {
 	return func(g *vlib.G) {
-		N := vlib.Pick(g, 10, 12)
-		nbs := vlib.Pick(g, []int{2, 3, 4}, []int{1, 2, 3, 4})
+		N := vlib.Pick(g, 12, 14)
+		nbs := vlib.Pick(g, []int{1, 2, 3, 4}, []int{1, 2, 3, 4, 5})
 		nxs := []int{0, 4}
 		if !ok.hasBlocked {
 			nbs, nxs = []int{1}, []int{0}
@@ -670,8 +670,8 @@ const ormTsize = 64 * 64 // the T workspace of Dormqr/Dormlq (nbmax*ldt)
 
 func genOrm(mk mkind) func(g *vlib.G) {
 	return func(g *vlib.G) {
-		N := vlib.Pick(g, 8, 12)
-		nbs := vlib.Pick(g, []int{2, 3, 4}, []int{1, 2, 3, 4})
+		N := vlib.Pick(g, 12, 13)
+		nbs := vlib.Pick(g, []int{1, 2, 3, 4}, []int{1, 2, 3, 4, 5})
 		if !mk.hasBlocked {
 			nbs = []int{1}
 		}
@@ -767,7 +767,11 @@ func genOrm(mk mkind) func(g *vlib.G) {
 											return got, path
 										}
 										ref, _ := run(mk.unbName, ldaMin, imax(1, n), -1)
-										run(mk.unbName+" ld+3", ldaMin+3, imax(1, n)+3, -1)
+										for _, pd := range ldPads[1:] {
+											ck.ctx = fmt.Sprintf("lda+%d ldc+%d", pd[0], pd[1])
+											run(mk.unbName, ldaMin+pd[0], imax(1, n)+pd[1], -1)
+										}
+										ck.ctx = ""
 										if !mk.hasBlocked {
 											t.Outcome("unblocked")
 											return
@@ -792,16 +796,16 @@ func genOrm(mk mkind) func(g *vlib.G) {
 										}
 										paths := map[string]int{}
 										for _, lwork := range uniq(imax(1, nw), menu...) {
-											for _, ld3 := range []int{0, 3} {
-												if ld3 != 0 && lwork != imax(1, nw) && lwork != query {
+											for _, pd := range ldPads {
+												if pd != ldPads[0] && lwork != imax(1, nw) && lwork != query {
 													continue
 												}
-												ck.ctx = fmt.Sprintf("lwork=%d ld+%d", lwork, ld3)
+												ck.ctx = fmt.Sprintf("lwork=%d lda+%d ldc+%d", lwork, pd[0], pd[1])
 												ck.class = ""
 												if risky {
 													ck.class = larftClass
 												}
-												got, path := run(mk.name, ldaMin+ld3, imax(1, n)+ld3, lwork)
+												got, path := run(mk.name, ldaMin+pd[0], imax(1, n)+pd[1], lwork)
 												paths[path]++
 												if d := maxAbsDiff(got, ref); m > 0 && n > 0 && d > diffTol*math.Max(1, normMax(c)) {
 													ck.failf("%s vs %s: result differs by %.3g", mk.name, mk.unbName, d)
